@@ -32,7 +32,7 @@ class CliScenario:
             for m in (CLI, TCI):
                 for f in repo.module(m).functions.values():
                     inline.add(f.fq)
-        self.ri = RepoInterp(repo, self.fi, inline=inline, call_hook=self.call_hook, may_fork=(), heap=True, max_depth=10)
+        self.ri = RepoInterp(repo, self.fi, inline=inline, call_hook=self.call_hook, may_fork=(), heap=True, max_depth=24)
         self.ri.construct_instances = False
         self.ri.dispatch_instances = True
         self.ri.interp.exc_parents = dict(exception_hierarchy(repo))
